@@ -21,6 +21,7 @@ RULE = (
     'a cell face or contains a hostile coordinate; distinct = SHA-1 of the input array.'
 )
 RULE += ' Added in rounds 8-10: slices / split parts not starting at frame 0 examined as trajectories of their own; chunks joined with extend() (the second chunk may repeat the previous last frame); a sixth of the cases shifted by up to thousands of cells.'
+RULE += ' Round 16: coordinate arrays in single precision with values a hair below a cell face.'
 RULE += ' Round 15: repr() / str() of the object among the queries.'
 RULE += ' Round 14: sub-trajectories also with a stride (every 2nd / 3rd / 5th frame).'
 RULE += ' Round 13: a fifth of the walks also as variable-cell trajectories (one lattice per frame): positions, displacements, cumulative displacements, single-frame access.'
@@ -290,6 +291,27 @@ def run_unit(unit, rng, ctx):
             order_s = [str(x_) for x_ in rng.permutation(['displacements', 'positions', 'cumulative', 'distances'])] + ['positions']
             examine(part, Xs, Us, m, ctx, what + f' [sub-trajectory {origin}]', order_s)
             ctx.count('sub_trajectories_not_starting_at_frame_0')
+    # coordinates handed over in single precision (a float32 dump read with numpy): wrapped positions still lie in
+    # [0, 1) - values a hair below a face (-1e-9, 1 - 6e-8 in float32) included - and equal the input modulo 1
+    if unit['i'] % 7 == 4:
+        from gemdat import Trajectory
+        from pymatgen.core import Lattice
+
+        X32 = np.asarray(U if mode != 'wrapped' else U - np.floor(U), dtype=np.float32)
+        hm_ = rng.uniform(size=X32.shape) < 0.2
+        vals_ = np.array([-1e-9, -3e-8, -1e-12, np.nextafter(np.float32(1), np.float32(0)), 1.0, 0.0, -0.0, 2.0 - 1e-7], dtype=np.float32)
+        X32[hm_] = vals_[rng.integers(len(vals_), size=int(hm_.sum()))]
+        t32 = Trajectory(species=gen.species_objects(names), coords=X32.copy(), lattice=Lattice(m), time_step=1e-15, metadata={'temperature': 300.0})
+        order_32 = [str(x_) for x_ in rng.permutation(['positions', 'displacements', 'positions'])]
+        for acc_ in order_32:
+            if acc_ == 'displacements':
+                _ = t32.displacements
+                continue
+            p32 = np.asarray(t32.positions)
+            ok32 = ctx.check(bool(p32.min() >= 0 and p32.max() < 1), f'{what} [float32 coordinates]: positions outside [0,1): min={p32.min()!r} max={p32.max()!r} (dtype {p32.dtype})', {'input': X32})
+            d32 = geom.circ_diff(np.asarray(p32, dtype=float), np.asarray(X32, dtype=float))
+            ok32 and ctx.check(float(d32.max()) <= (8 + 2 * T) * float(np.finfo(np.float32).eps) * max(1.0, float(np.abs(X32).max())), f'{what} [float32 coordinates]: positions differ from the input by a non-integer (max circular diff {d32.max():.3e})', {'input': X32})
+        ctx.count('float32_coordinate_arrays')
     # a variable-cell run (one lattice per frame, as the loaders build with constant_lattice=False) is a periodic
     # trajectory too: every fractional clause applies (Cartesian distances need one cell and are left out)
     if unit['i'] % 5 == 2:
